@@ -393,3 +393,99 @@ Fixpoint eval_outcome (fuel : nat) (g : list onode) (n : id) : option outcome :=
           do xs <- map_opt (map_opt (fun d => option_map fst (eval_outcome f g d))) ins; Some (p xs)
       end
   end.
+
+(* ---------- processors that panic ---------- *)
+(* process() is "sn.value, sn.err = sn.Data.Process(); sn.version++; sn.updateUsedDependencyVersions();
+   flag = false".  When Data.Process() panics (its own code, or a dependency's Value() called from it) the
+   panic unwinds through process() and Value(): NOTHING of this node is updated — value, version,
+   depVersions and flag stay as they were — while every dependency whose Value() had already returned keeps
+   what its own evaluation committed.  The caller that recovers the panic (as the HTTP handler does) sees a
+   failed read. *)
+Definition pantab := id -> list (list val) -> bool.      (* does Data.Process() of node n panic on these inputs *)
+Inductive pres := POk (v : val) | PPanic.
+
+Fixpoint pread_list (rd : store -> id -> option (store * pres)) (st : store) (l : list id)
+  : option (store * option (list val)) :=
+  match l with
+  | [] => Some (st, Some [])
+  | d :: r =>
+      do '(st1, x) <- rd st d;
+      match x with
+      | PPanic => Some (st1, None)                      (* the remaining inputs are never read *)
+      | POk v => do '(st2, xs) <- pread_list rd st1 r; Some (st2, option_map (cons v) xs)
+      end
+  end.
+Fixpoint pread_ports (rd : store -> id -> option (store * pres)) (st : store) (ps : list (list id))
+  : option (store * option (list (list val))) :=
+  match ps with
+  | [] => Some (st, Some [])
+  | l :: r =>
+      do '(st1, oxs) <- pread_list rd st l;
+      match oxs with
+      | None => Some (st1, None)
+      | Some xs => do '(st2, xss) <- pread_ports rd st1 r; Some (st2, option_map (cons xs) xss)
+      end
+  end.
+
+(* Value() with panicking processors; with [pan = fun _ _ => false] this is [value] *)
+Fixpoint pvalue (po : order) (pan : pantab) (fuel : nat) (st : store) (n : id) : option (store * pres) :=
+  match fuel with
+  | O => None
+  | S f =>
+      match nth_error st n with
+      | None => None
+      | Some (Param _ v _) => Some (st, POk v)
+      | Some (Struct sn) =>
+          do o <- stale po fuel st n;
+          if o then
+            do '(st1, oins) <- pread_ports (pvalue po pan f) st (ids_of sn);
+            match oins with
+            | None => Some (st1, PPanic)                (* a dependency panicked *)
+            | Some ins =>
+                if pan n ins then Some (st1, PPanic)    (* this node's processor panics *)
+                else
+                  let v := sn_proc sn ins in
+                  do vers <- map_opt (ver_of st1) (map snd (po Rec n (raw_deps (sn_ports sn))));
+                  let sn' := {| sn_ports := sn_ports sn; sn_proc := sn_proc sn; sn_ver := S (sn_ver sn);
+                                sn_cache := v; sn_depvers := Some vers; sn_dirty := false;
+                                sn_execs := S (sn_execs sn); sn_edits := sn_edits sn |} in
+                  Some (set_nth n (Struct sn') st1, POk v)
+            end
+          else Some (st, POk (sn_cache sn))
+      end
+  end.
+
+(* from-scratch evaluation with panics: inputs in declaration order, the first panic aborts *)
+Fixpoint plist {A} (f : A -> option pres) (l : list A) : option (option (list val)) :=
+  match l with
+  | [] => Some (Some [])
+  | d :: r => do x <- f d;
+              match x with
+              | PPanic => Some None
+              | POk v => do xs <- plist f r; Some (option_map (cons v) xs)
+              end
+  end.
+Fixpoint pports (f : id -> option pres) (ps : list (list id)) : option (option (list (list val))) :=
+  match ps with
+  | [] => Some (Some [])
+  | l :: r => do oxs <- plist f l;
+              match oxs with
+              | None => Some None
+              | Some xs => do xss <- pports f r; Some (option_map (cons xs) xss)
+              end
+  end.
+Fixpoint eval_p (pan : pantab) (fuel : nat) (g : graph) (n : id) : option pres :=
+  match fuel with
+  | O => None
+  | S f =>
+      match nth_error g n with
+      | None => None
+      | Some (GParam v) => Some (POk v)
+      | Some (GStruct ins proc) =>
+          do oxs <- pports (eval_p pan f g) ins;
+          match oxs with
+          | None => Some PPanic
+          | Some xs => if pan n xs then Some PPanic else Some (POk (proc xs))
+          end
+      end
+  end.
